@@ -294,6 +294,7 @@ func init() {
 				items = append(items, it)
 			}
 			items = append(items, Item{Name: "typed-maps", MaxDevs: -1, Run: c04TypedMapScenario})
+			items = append(items, Item{Name: "required-issues-under-one-path", MaxDevs: -1, Run: c04RefiledScenario})
 			// what is absent behind a Preprocess is decided by the Parse rule on the function's output
 			items = append(items, preprocItem("C04", "clean-despite-violation", "issues", "destination", "panic"))
 			// Required / NotNil / Default applied to a node after it was handed to its parent's constructor
@@ -312,4 +313,109 @@ func init() {
 			return items
 		},
 	})
+}
+
+// Several required nodes that file their required / not_nil issue under ONE path (Required(IssuePath(p)),
+// NotNil(IssuePath(p)) — a form that reports "credentials missing" for either of two fields): every absent
+// required node yields exactly one issue, however many of them land under the same key.
+type c04Refiled struct {
+	A string
+	B string
+	N int
+	P *int
+	L []string
+}
+
+func c04RefiledScenario(x *mc.X) *mc.Outcome {
+	zh.Reset()
+	zh.Install(x, zh.PoolLIFO, zh.OrderFree)
+	mode := x.Choose(2, "mode")
+	var absent [4]bool // a, b, n, p
+	n := 0
+	for i := range absent {
+		absent[i] = x.Bool(fmt.Sprintf("node %d absent", i))
+		if absent[i] {
+			n++
+		}
+	}
+	items := x.Choose(4, "absent list items") // of 3
+	s := z.Struct(z.Schema{
+		"a": z.String().Required(z.IssuePath("credentials")),
+		"b": z.String().Required(z.IssuePath("credentials")),
+		"n": z.Int().Required(z.IssuePath("credentials")),
+		"p": z.Ptr(z.Int()).NotNil(z.IssuePath("credentials")),
+		"l": z.Slice(z.String().Required(z.IssuePath("tags"))),
+	})
+	seven := 7
+	var d c04Refiled
+	var m z.ZogIssueMap
+	if mode == 0 {
+		in := map[string]any{}
+		if !absent[0] {
+			in["a"] = "x"
+		}
+		if !absent[1] {
+			in["b"] = "y"
+		}
+		if !absent[2] {
+			in["n"] = 3
+		}
+		if !absent[3] {
+			in["p"] = 7
+		}
+		l := []any{}
+		for i := 0; i < 3; i++ {
+			if i < items {
+				l = append(l, nil)
+			} else {
+				l = append(l, "t")
+			}
+		}
+		in["l"] = l
+		m = s.Parse(in, &d)
+	} else {
+		d = c04Refiled{A: "x", B: "y", N: 3, P: &seven}
+		if absent[0] {
+			d.A = ""
+		}
+		if absent[1] {
+			d.B = ""
+		}
+		if absent[2] {
+			d.N = 0
+		}
+		if absent[3] {
+			d.P = nil
+		}
+		for i := 0; i < 3; i++ {
+			if i < items {
+				d.L = append(d.L, "")
+			} else {
+				d.L = append(d.L, "t")
+			}
+		}
+		m = s.Validate(&d)
+	}
+	zh.Reset()
+	count := func(key string) (c int) {
+		for _, is := range m[key] {
+			if is.Code == "required" || is.Code == "not_nil" {
+				c++
+			}
+		}
+		return
+	}
+	other := 0
+	for k, l := range m {
+		if k != "$first" && k != "credentials" && k != "tags" {
+			other += len(l)
+		}
+	}
+	out := &mc.Outcome{Traces: 1, Nontrivial: n+items > 0, Sig: fmt.Sprintf("refiled|%d|%v|%d", mode, absent, items)}
+	out.Sample = map[string]any{"mode": mode, "absent(a,b,n,p)": absent, "absent_items": items, "credentials": count("credentials"), "tags": count("tags")}
+	if count("credentials") != n || count("tags") != items || other != 0 {
+		x.Note("Struct{a,b: String.Required(IssuePath(credentials)), n: Int.Required(IssuePath(credentials)), p: Ptr(Int).NotNil(IssuePath(credentials)), l: Slice(String.Required(IssuePath(tags)))}; mode %d; absent nodes (a,b,n,p) %v; %d of 3 list items absent", mode, absent, items)
+		out.Viol = append(out.Viol, &mc.Violation{Key: fmt.Sprintf("C04:required-issues-under-one-path:%d", mode), What: "every absent required node must yield exactly one required / not_nil issue, also when several of them are filed under one path", Expected: fmt.Sprintf("credentials: %d, tags: %d, elsewhere: 0", n, items), Observed: fmt.Sprintf("credentials: %d, tags: %d, elsewhere: %d", count("credentials"), count("tags"), other)})
+	}
+	return out
 }
